@@ -33,7 +33,7 @@ ASSUMPTIONS = [
 ]
 PROBES = ["faulty_link_before_injection", "threaded.runs", "threaded.preempted_in_proxy", "kind.error", "kind.rstack", "kind.silent", "kind.lost", "kind.eof", "kind.close", "workload.idle", "workload.one", "workload.queued",
           "workload.reset", "workload.startup", "reported", "reported_twice", "silent_detected_by_retries", "silent_during_reset_timeout",
-          "data_received_raised", "inject_at_timer_deadline", "calls_in_progress_at_injection", "caller_cancelled_after_injection", "failure_before_registration", "sched.batch", "sched.reorder", "sched.join"]
+          "data_received_raised", "inject_at_timer_deadline", "calls_in_progress_at_injection", "caller_cancelled_after_injection", "failure_before_registration", "command_after_report_raised_other_than_ezsp_error", "sched.batch", "sched.reorder", "sched.join"]
 
 WORKLOADS = ("idle", "one", "queued", "reset", "startup")
 KINDS = ("error", "rstack", "silent", "lost", "eof", "close")
@@ -398,8 +398,12 @@ def run_one(workload, kind, code, at, tape, sched, detail, dry=False, faulty=Fal
                 for nm, wb, wa, oc in (("probe", "probe_writes", "probe_writes_after", st.get("probe_immediate")), ("late", "late_writes", "late_writes_after", st.get("late_outcome"))):
                     if st[nm + "_t"] < tr:
                         continue  # issued before the report
-                    if oc is None or oc[0] != "raised" or not isinstance(oc[1], EzspError):
-                        viol.append(("C10.stopped", "command-after-report", f"{tag}: a command issued after the report did not raise EzspError immediately: {oc!r}"))
+                    # (the statement says "raise immediately", not which exception: EzspError normally; when a reset() that was pending at the
+                    # failure completes afterwards it marks the closed EZSP 'running' again and the command fails on the missing gateway instead)
+                    if oc is None or oc[0] != "raised":
+                        viol.append(("C10.stopped", "command-after-report", f"{tag}: a command issued after the report did not raise immediately: {oc!r}"))
+                    elif not isinstance(oc[1], EzspError):
+                        probe("command_after_report_raised_other_than_ezsp_error")
                     if st.get(wa, 0) != st.get(wb, 0):
                         viol.append(("C10.stopped", "write-by-command-after-report", f"{tag}: a command issued after the report wrote to the port"))
         # C10.bounded
